@@ -1732,6 +1732,9 @@ class Interp:
                 if r is not NotImplemented:
                     continue
                 h = self.ctx.deref(obj)
+                if isinstance(h, HObj) and h.cls.startswith("ext:") and "__delitem__" in (h.fields.get("__methods__") or {}):
+                    models.ext_method(self, obj, h, "__delitem__", [idx], {})       # a scripted collaborator says what del does
+                    continue
                 self.ctx.mutate()
                 if isinstance(h, HOptDict):
                     optdict.delitem(self, h, idx)
